@@ -28,7 +28,7 @@ def c13(work, tier, seed):
             scripts.append({"id": "ck%04d" % len(scripts), "kind": "cookie", "cfg": cfg, "mut": "subst", "pos": (k * 9973 + seed) % 100000, "user": "user1"})
         for k in range(8 if tier == "quick" else 60):
             scripts.append({"id": "ck%04d" % len(scripts), "kind": "cookie", "cfg": cfg, "mut": "trunc", "pos": (k * 7919 + seed) % 100000, "user": "user1"})
-        for m in ("none", "none", "empty", "garbage", "foreign"):
+        for m in ("none", "none", "empty", "garbage", "foreign", "anonymous", "anonymous"):
             scripts.append({"id": "ck%04d" % len(scripts), "kind": "cookie", "cfg": cfg, "mut": m, "pos": 0, "user": rng.choice(["user1", "Ünï cødé", "bob@corp.example"])})
     if slow:
         # one slow script at the head of every chunk the driver forms per configuration
@@ -83,6 +83,14 @@ def c12(work, tier, seed):
                             peer, xff = addrs[len(scripts) % len(addrs)]
                             scripts.append({"id": "cn%05d" % len(scripts), "kind": "connect", "cfg": cfg, "session": session, "param": param, "user": user, "peerIP": peer, "xff": xff,
                                             "replay": session == "authed" and sel != "signed"})
+    # several logged-in sessions of different users downloading at the same time (with and without an administrator's
+    # template file): every file carries its own session's user, host, address and access token
+    for sel in ("unsigned", "any"):
+        for split in (False, True):
+            for defaults in (True, False):
+                for store in (("cookie", "file") if tier == "thorough" else (["cookie", "file"][len(scripts) % 2],)):
+                    cfg = dict(base(store, sel, [["H1", ":", "PA"], ["H1", ":", "PB"], ["H1", ":", "PE"]], split), rdpDefaults=defaults)
+                    scripts.append({"id": "cn%05d" % len(scripts), "kind": "burst", "cfg": cfg, "session": "authed", "param": "listed", "user": "", "peerIP": "", "xff": "", "replay": False})
     out, rep, res = fa.generic("C12", work, tier, seed, "oidc", "OidcTrace", scripts, design,
                                lambda v: "%s/%s" % (v["guard"], v["a"]),
                                "Oidc.tla + Policy!Offered (design). Conformance on the real binary: selection mode x host list (plain, two entries, user placeholder) x host parameter (absent, listed, unlisted, valid/forged/expired/"
